@@ -339,22 +339,34 @@ class Hang(Exception):
     pass
 
 
-def run_extract(data, seconds=5):
-    from pdfminer.high_level import extract_text
+ENTRIES = ["text", "xml", "html", "pages"]
+
+
+def run_extract(data, seconds=5, entry="text"):
+    """entry: extract_text / extract_text_to_fp(xml | html, with layout analysis) / extract_pages"""
+    from pdfminer.high_level import extract_text, extract_text_to_fp, extract_pages
+    from pdfminer.layout import LAParams
+    name = {"text": "extract_text", "xml": "extract_text_to_fp(xml)", "html": "extract_text_to_fp(html)", "pages": "extract_pages"}[entry]
 
     def onalarm(*a):
         raise Hang()
     old = signal.signal(signal.SIGALRM, onalarm)
     signal.alarm(seconds)
     try:
-        extract_text(io.BytesIO(data))
+        if entry == "text":
+            extract_text(io.BytesIO(data))
+        elif entry == "pages":
+            for pg in extract_pages(io.BytesIO(data)):
+                list(pg)
+        else:
+            extract_text_to_fp(io.BytesIO(data), io.BytesIO(), output_type=entry, laparams=LAParams(), codec="utf-8")
         return None
     except Hang:
-        return "extract_text did not return within %d s" % seconds
+        return "%s did not return within %d s" % (name, seconds)
     except RecursionError:
-        return "extract_text exhausted the recursion limit"
+        return "%s exhausted the recursion limit" % name
     except Exception as e:
-        return None if ok_exc(e) else "extract_text raised %s: %s" % (type(e).__name__, str(e)[:200])
+        return None if ok_exc(e) else "%s raised %s: %s" % (name, type(e).__name__, str(e)[:200])
     finally:
         signal.alarm(0)
         signal.signal(signal.SIGALRM, old)
@@ -376,17 +388,18 @@ def h4_faults(timeout=300, part=None, exclude=(), seed=1, depth=1, **kw):
             data = pdfgen.build(objs)
         except Exception:
             raise symx.Abort()
-        r = run_extract(data)
-        ex.require(r is None, "object %d entry %s replaced by %s: %s" % (S[si][0], "/".join(map(str, S[si][1:])), REPLACEMENTS[ri], r), site=list(S[si]), kind=REPLACEMENTS[ri])
+        entry = ENTRIES[ex.choice(len(ENTRIES), "entry")]
+        r = run_extract(data, entry=entry)
+        ex.require(r is None, "object %d entry %s replaced by %s: %s" % (S[si][0], "/".join(map(str, S[si][1:])), REPLACEMENTS[ri], r), site=list(S[si]), kind=REPLACEMENTS[ri], entry=entry)
 
     def conc(m, info):
-        return {"what": "fault", "site": info["site"], "kind": info["kind"], "seed": seed}
+        return {"what": "fault", "site": info["site"], "kind": info["kind"], "seed": seed, "entry": info["entry"]}
     from pdfminer import high_level
     seed_desc = {1: "8-object document (page tree, font with Differences, content stream, image, outlines, page labels)",
                  2: "24-object document (Type0 + CIDFontType2 with W/DW/ToUnicode, Type 3 font with CharProcs, TrueType font with descriptor, form XObject with Matrix, filtered image, "
                     "inline image, two content streams, outline items with Dest / A, name tree, legacy Dests, label tree with Kids, inherited Resources / Rotate / CropBox)"}[seed]
     return core.run_symx("H4_faults", fn, [high_level.extract_text], {"seed": seed_desc, "site depth": "top-level keys" if depth == 1 else "keys, nested entries and array elements to depth %d" % depth,
-                                                                       "sites": len(S), "fault_kinds": REPLACEMENTS, "note": "enumeration through symbolic choices; concrete per path"},
+                                                                       "sites": len(S), "fault_kinds": REPLACEMENTS, "entry points": ENTRIES, "note": "enumeration through symbolic choices; concrete per path"},
                          timeout, concretize=conc, part=part)
 
 
@@ -677,7 +690,7 @@ def replay(harness, inp):
     if what == "fault":
         objs = SEEDS[inp.get("seed", 1)]()
         apply_fault(objs, tuple(inp["site"]), inp["kind"])
-        r = run_extract(pdfgen.build(objs))
+        r = run_extract(pdfgen.build(objs), entry=inp.get("entry", "text"))
         return None if r is None else "seed document %d with object %d entry %s replaced by %s: %s" % (inp.get("seed", 1), inp["site"][0], "/".join(map(str, inp["site"][1:])), inp["kind"], r)
     if what == "content":
         content, desc = content_fault(inp["kind"], inp["i"], inp["j"])
